@@ -584,10 +584,18 @@ class DimensionValue(Value):
             item = seq[0]
 
             sign, v, d = self.__reUnNumDim.findall(normalize(item.value))[0]
-            if '.' in v:
-                val = float(sign + v)
-            else:
-                val = int(sign + v)
+            try:
+                if '.' in v:
+                    val = float(sign + v)
+                    if val in (float('inf'), float('-inf')):
+                        raise OverflowError(v)
+                else:
+                    val = int(sign + v)
+            except (ValueError, OverflowError):
+                # more digits than a number can hold (int() refuses > 4300)
+                self.wellformed = False
+                self._log.error('DimensionValue: Number out of range: %s...' % v[:20])
+                return
 
             dim = None
             if d:
